@@ -49,6 +49,36 @@ type c08Layer struct {
 	// signer, if set, signs this record when the chain is rebuilt (a forged
 	// record that carries the forger's key under somebody else's address).
 	signer *ids.Identity
+	// recode, if non-zero, replaces the record's bytes - after signing - by
+	// other bytes that decode to the same record (see c08Recode).
+	recode int
+}
+
+// c08Recode returns a different encoding of the same record: a CBOR map with
+// an extra unknown key (1), with the case of its first one-letter key changed
+// (2), or with a longer form of the map header (3). Decoders that ignore
+// unknown keys, match keys case-insensitively and accept non-minimal lengths
+// read the same record from all of them; no signer ever produced these bytes.
+func c08Recode(raw []byte, how int) []byte {
+	if len(raw) < 3 || raw[0] < 0xa1 || raw[0] > 0xb6 {
+		return raw
+	}
+	out := append([]byte(nil), raw...)
+	switch how {
+	case 1:
+		out[0]++
+		out = append(out, 0x61, 'z', 0x00)
+	case 2:
+		if out[1] == 0x61 && out[2] >= 'a' && out[2] <= 'z' {
+			out[2] -= 0x20
+		} else {
+			out[0]++
+			out = append(out, 0x61, 'z', 0x00)
+		}
+	default:
+		out = append([]byte{0xb8, raw[0] - 0xa0}, raw[1:]...)
+	}
+	return out
 }
 
 // c08Split decodes an appendix into layers, outermost first.
@@ -92,6 +122,9 @@ func c08Build(layers []c08Layer, attacker *ids.Identity, context []byte) []byte 
 		}
 		if len(sig) != 64 {
 			sig = make([]byte, 64)
+		}
+		if l.recode != 0 {
+			raw = c08Recode(raw, l.recode)
 		}
 		inner = append(raw, sig...)
 	}
@@ -252,7 +285,7 @@ func TestC08(t *testing.T) {
 			rebuild := func(ls []c08Layer) {
 				data = append(data[:parts.apxStart:parts.apxStart], c08Build(ls, attacker, ctx)...)
 			}
-			op := c.Weighted("op", 8, 6, 8, 5, 6, 5, 5, 7, 9, 5, 4, 7, 3, 3, 9, 6, 5)
+			op := c.Weighted("op", 8, 6, 8, 5, 6, 5, 5, 7, 9, 5, 4, 7, 3, 3, 9, 6, 5, 7)
 			switch op {
 			case 0:
 				i := c.Uniform("flip.body", parts.msgStart, parts.authStart-1)
@@ -468,6 +501,19 @@ func TestC08(t *testing.T) {
 					}
 					rebuild(ls)
 					opName, level = "peer-re-signs-own-record-with-other-labels", 1
+				} else {
+					opName = "unmodified"
+				}
+			case 17: // a hop record in another encoding of the same contents, under the signature made for the original bytes
+				if len(layers) >= 1 && layers[0].att.Router.IP == attacker.Addr.IP {
+					j := 0
+					if len(layers) >= 2 && c.Bool("recode.inner") {
+						j = 1 // the record right below the delivering peer's own (which is signed again over the new bytes)
+					}
+					ls := append([]c08Layer(nil), layers...)
+					ls[j].recode = 1 + c.Pick("recode.how", 3)
+					rebuild(ls)
+					opName, level = fmt.Sprintf("hop-record-re-encoded-%d", ls[j].recode), j+1
 				} else {
 					opName = "unmodified"
 				}
